@@ -15,7 +15,7 @@ var behSites = []string{
 	"startupCoordinator.authenticateHandshake", "startupCoordinator.authenticateHandshake" + NilSuffix,
 	"controlConn.registerEvents", "Conn.UseKeyspace", "Conn.prepareStatement", "Conn.executeQuery",
 	"Conn.executeBatch", "Session.handleEvent",
-	// names after props/C05.disp.fix-5.diff (driven only if the extractor finds them)
+	// names after props/C05.fix-20.diff (driven only if the extractor finds them)
 	"Conn.executeQueryAttempt", "Conn.executeBatchAttempt",
 }
 
